@@ -1088,6 +1088,22 @@ def _verbatim(repo, rep):
     rep.check(A.show(r.out) == "[EmitText(node.value)]", "R03.4", f.qualname,
               "Text emits its value unchanged", construct="emit-text",
               where=L.where(f), detail=A.show(r.out))
+    # every attribute written on a tag is kept, also one whose name repeats
+    # (in another case): the only thing the first loop of the attribute
+    # preparation leaves out are the names to be dropped
+    pa = repo.func("chameleon.tal.prepare_attributes")
+    first = next((lp for lp in pa.node.body if isinstance(lp, ast.For)), None)
+    skips = [c_ for c_ in ast.walk(first) if isinstance(c_, ast.Continue)] \
+        if first is not None else []
+    oks = first is not None
+    for c_ in skips:
+        g_ = [src(t_) for t_, v_ in L.guards_of(c_, first)
+              if isinstance(t_, ast.expr)]
+        if not any("drop" in x for x in g_):
+            oks = False
+    rep.check(oks, "R03.4", pa.qualname, "no static attribute is left out "
+              "of the prepared list except the names to be dropped",
+              construct="static-attributes-all-kept", where=L.where(pa))
     # an end tag is written from its pieces as they were read: nothing is
     # put in for a piece that is empty (an end tag cut off behind its name
     # has the empty suffix, and stays cut off)
